@@ -217,8 +217,8 @@ struct Big {
 		fl[i] = float32(i)
 	}
 	bb := f32buf(fl...)
-	copy(bb[0:], u32buf(1))    // x
-	copy(bb[80:], u32buf(77))  // z
+	copy(bb[0:], u32buf(1))   // x
+	copy(bb[80:], u32buf(77)) // z
 	copy(bb[176:], u32buf(5, 6))
 	wb := make([]byte, 192)
 	for i := range wb {
@@ -246,15 +246,15 @@ struct Big {
 			t.Errorf("w word %d = %v, want %v", word, wv[word], v)
 		}
 	}
-	check(4, 4)    // y
-	check(6, 7)    // m[0].x
-	check(7, 8)    // m[0].y
-	check(8, 8)    // m[1].x (copied)
-	check(12, 12)  // n[0].x
-	check(13, 5)   // n[0].y overwritten
-	check(32, 99)  // inner[0].v.x
-	check(36, 3)   // inner[1].a = 3.0 (i == 1)
-	check(40, 32)  // inner[1].v.x = b.inner[0].v.x
+	check(4, 4)   // y
+	check(6, 7)   // m[0].x
+	check(7, 8)   // m[0].y
+	check(8, 8)   // m[1].x (copied)
+	check(12, 12) // n[0].x
+	check(13, 5)  // n[0].y overwritten
+	check(32, 99) // inner[0].v.x
+	check(36, 3)  // inner[1].a = 3.0 (i == 1)
+	check(40, 32) // inner[1].v.x = b.inner[0].v.x
 	if wu[0] != 1 || wu[20] != 77 || wu[44] != 5 || wu[45] != 6 {
 		t.Errorf("w integer members wrong: %v %v %v %v", wu[0], wu[20], wu[44], wu[45])
 	}
